@@ -446,7 +446,7 @@ func TestBigUnits(t *testing.T) {
 		return
 	}
 	r.Rule("length-prefixed binary protocols with LARGE units: ldap messages of 128..70000 bytes (long DNs / passwords / filter values / attribute values, many attributes; sizes biased to 128, 256, 4096, 8192 and 65536 +-9 so that the 0x81, 0x82 and 0x83 BER length forms and the buffer-size boundaries occur) mixed with short ones, and ipp requests (one per connection) with attribute values up to 65535 bytes, 1setOf values and documents up to 70000 bytes; every single cut inside the first 24 bytes of every unit / around the ipp header, the big fields' length prefixes and the document start (exhaustive per dialog; every cut of the stream when it has <= 400 bytes), sampled cuts elsewhere incl. multiples of 4096, all header cuts at once, and (unit boundary + cut in its header) pairs; same oracle as TestEveryCut")
-	r.Rapid(t, "TestBigUnits", r.Pick(26, 260), func(rt *rapid.T) {
+	r.Rapid(t, "TestBigUnits", r.Pick(26, 90), func(rt *rapid.T) {
 		kind := rapid.SampledFrom([]string{"ldap-big", "ldap-big", "ipp"}).Draw(rt, "kind")
 		d, hot := genTCPHot(rt, kind)
 		stream := d.Stream()
